@@ -238,16 +238,21 @@ PROPS['C19'] = {
 PROPS['C06'] = {
     'title': 'Centroid is the centre of mass of the highest-dimensional part',
     'level': 'proof',
-    'verus': [],
+    'verus': ['c06_accum'],
+    'twins': {'C06.V.wc_add_assign': r'^c06_k_weighted_centroid_algebra', 'C06.V.wc_sub_assign': r'^c06_k_weighted_centroid_algebra',
+              'C06.V.op_add_line_string': r'^c06_k_operation_early_outs', 'C06.V.op_add_multi_line_string': r'^c06_k_operation_early_outs',
+              'C06.V.op_add_multi_point': r'^c06_k_operation_early_outs', 'C06.V.op_add_polygon': r'^c06_k_zero_area_polygon'},
     'kani': [
         ('geo', 'c06.rs', r'^c06_k_(weighted_centroid_algebra|operation_none_iff_empty|centroid_none_iff_empty)$', 'complete', 'quick'),
         ('geo', 'c06.rs', r'^c06_k_(operation_early_outs|zero_area_polygon|centroid_scales_exactly)', 'bounded', 'quick'),
     ],
-    'trusted': ['f64::hypot is replaced by the model sqrt(a*a + b*b) (the libm function is a foreign call Kani cannot execute)',
+    'trusted': ['Verus unit c06_accum: exact ring scalar; derived Ord of Dimensions = declaration order; Line::centroid, Euclidean length and the ring formula `add_ring` are abstract (assumed to be functions of their arguments); LineString::lines() twin; the inline closure of centroid_dimensions annotated in place (X10)',
+                'f64::hypot is replaced by the model sqrt(a*a + b*b) (the libm function is a foreign call Kani cannot execute)',
                 'accumulator algebra: complete over all dimension pairs and finite f64 weights up to 1e100'],
     'undecided_clauses': [
         'numeric clauses: centre of mass within rounding tolerance, convex-hull containment, covariance under translation and uniform scaling, polygon ring formula accuracy',
-        'mixed-dimension GeometryCollections through the public API (recursive Geometry delegation is intractable for CBMC here); the accumulator they feed IS under contract',
+        'mixed-dimension GeometryCollections through the public API (recursive Geometry enum: neither CBMC nor the Verus unit); the accumulator they feed IS under contract, and the dimension-dominance rule is proved for any sequence of contributions (lemma_fold_dominance)',
+        'add_ring (polygon ring formula: iterator fold with closures), add_rect / add_triangle, the final division accumulated / weight',
     ],
 }
 
